@@ -72,6 +72,47 @@ def scripts(rng, n, wild=0.15, mutate=0.0, relayout=0.1, lower=0.03, single=Fals
     return out
 
 
+COMPUTE_OPS = ["^", "*", "/", "%", "DIV", "MOD", "+", "-", "<<", ">>", "&", "|", "||"]
+COMPARE_OPS = ["=", "!=", "<>", "<", "<=", ">", ">=", "<=>"]
+LOGIC_OPS = ["AND", "OR", "XOR"]
+KEYWORD_OPS = ["IS", "IS NOT", "LIKE", "NOT LIKE", "RLIKE", "NOT RLIKE", "REGEXP", "NOT REGEXP", "IN", "NOT IN", "BETWEEN", "NOT BETWEEN"]
+UNARY_OPS = ["-", "+", "~", "!", "NOT"]
+
+
+def _bin(op, l, r):
+    if op.endswith("IN"): return "%s %s (%s, 1)" % (l, op, r)
+    if op.endswith("BETWEEN"): return "%s %s %s AND k" % (l, op, r)
+    return "%s %s %s" % (l, op, r)
+
+
+def operator_pairs(d):
+    """every nesting of two operators (binary × binary on either side, unary over binary, binary over unary), written with and without the
+    grouping brackets, as one-item SELECT statements: the systematic part of the printer/grammar precedence coverage"""
+    a, b, c = ("x[0]", "b", "c") if d == "HIVE" else ("CURRENT DATE", "b", "c") if d == "DB2" else ("a", "b", "c")
+    ops = COMPUTE_OPS + COMPARE_OPS + LOGIC_OPS + KEYWORD_OPS
+    out = []
+    for o in ops:
+        for i in ops:
+            out.append("(" + _bin(i, a, b) + ") " + _bin(o, "", c).lstrip())
+            out.append(_bin(o, a, "(" + _bin(i, b, c) + ")"))
+            out.append(_bin(o, _bin(i, a, b), c))
+        for u in UNARY_OPS:
+            out += [u + " (" + _bin(o, a, b) + ")", u + " " + _bin(o, a, b), _bin(o, "(" + u + " " + a + ")", b), _bin(o, a, "(" + u + " " + b + ")"), _bin(o, a, u + " " + b)]
+    for u in UNARY_OPS:
+        for v in UNARY_OPS:
+            out += [u + " " + v + " " + a, u + " (" + v + " " + a + ")"]
+    return ["SELECT " + e + " FROM t" for e in out]
+
+
+def tree_texts(rng, n_per_dialect, dialects=None):
+    """[(dialect, text)]: printed texts of tree-first generated statements (canon_ext_tree.py), every statement class and clause combination"""
+    tb = [(d, 1 + rng.below(10 ** 6), n_per_dialect) for d in (dialects or DIALECTS)]
+    out = []
+    for (d, seed, n), a in zip(tb, E.run_impl(["TREETEXT %s %d %d" % b for b in tb])):
+        out += [(d, E.unhex(h)) for h in a.split(" ")[1:] if h and h != "-"]
+    return out
+
+
 def req_parse(d, t, entry="statements"):
     return "P %s %s %s" % (entry, d, E.enhex(t))
 
